@@ -285,7 +285,7 @@ func (r *runner) run(ctx context.Context, isStream bool, input any, opts ...Opti
 
 		err = tm.submit(nextTasks)
 		if err != nil {
-			return nil, newGraphRunError(fmt.Errorf("failed to submit tasks: %w", err))
+			return nil, err // a state pre-handler failed: err has been wrapped with the node's key
 		}
 		var completedTasks []*task
 		completedTasks, err = tm.wait()
